@@ -283,6 +283,7 @@ def run(tier, seed=0, shard=(0, 1)):
                             'exported and re-imported, the control in superposition before and after',
                   'controlled': 'Controlled(g), its dagger and double dagger for g in X Y Z H S T S† T†, control and target in superposition, three read-outs',
                   'chains': '5 selections with two or three adjacent post-selected qubits next to measured ones, then Bits(0) at every offset',
+                  'holes': 'a middle qubit of three removed (Bra / Measure / Discard), a Ket prepared at every offset, H on it, everything measured',
                   'late': '12 circuits with NOT / Copy / XOR / Match recorded before an overriding Measure, a fresh Bits(0) or nothing',
                   'simulator': 'rtc/tksim.py exact branching state-vector simulation'})
     idx = 0
@@ -394,6 +395,30 @@ def run(tier, seed=0, shard=(0, 1)):
             if idx % shard[1] != shard[0]:
                 continue
             check(rep, pre >> sel >> tail)
+    # a qubit is removed from the MIDDLE of the live wires (post-selected, measured, discarded), then a fresh qubit is prepared
+    # at every offset to the right of (and at) the hole, then gates tell the wires apart: the live registers are no longer
+    # a contiguous range when the new one is numbered
+    base3 = Ket(0, 0, 1) >> gates.H @ Rx(0.3) @ Id(1) >> gates.CX @ Id(1)
+    for rem in (Bra(0), Measure(), Discard()):
+        mid3 = base3 >> Id(1) @ rem @ Id(1)
+        nq = mid3.cod.count(qubit)
+        for pos in range(len(mid3.cod) + 1):
+            left_t, right_t = mid3.cod[:pos], mid3.cod[pos:]
+            with_ket = mid3 >> Id(left_t) @ Ket(0) @ Id(right_t)
+            k = list(with_ket.cod).index(qubit[0]) if False else None
+            # a gate on the new qubit, then everything is measured (bits stay where they are)
+            tail = Id(with_ket.cod)
+            c_ = with_ket
+            for j, t_ in enumerate(list(with_ket.cod)):
+                if with_ket.cod[j:j + 1] == qubit and j == pos:
+                    c_ = c_ >> Id(c_.cod[:j]) @ gates.H @ Id(c_.cod[j + 1:])
+            for j in range(len(c_.cod)):
+                if c_.cod[j:j + 1] == qubit:
+                    c_ = c_ >> Id(c_.cod[:j]) @ Measure() @ Id(c_.cod[j + 1:])
+            idx += 1
+            if idx % shard[1] != shard[0]:
+                continue
+            check(rep, c_)
     # several post-selections next to each other while a measured bit is live, then a fresh bit: the registers of the
     # post-selected bits are renamed in a chain (i -> i + 1 -> i + 2), every one of them must keep its own value
     pre4 = Ket(0, 0, 0, 0) >> gates.H @ gates.X @ Rx(0.3) @ gates.H >> gates.CX @ Id(2) >> Id(1) @ gates.CX @ Id(1)
